@@ -38,6 +38,15 @@ class VirtualClockLoop(asyncio.SelectorEventLoop):
     def time(self):
         return self._vt
 
+    def create_future(self):
+        fut = super().create_future()
+        from . import replay as _replay
+
+        rec = _replay.CURRENT.get("rec")
+        if rec is not None and not getattr(self, "_pyvc_internal", False):
+            rec.add(("loop.create_future", fut))
+        return fut
+
 
 def make_exception(name, builder, spec):
     """Exception object for a scripted outcome 'exception:<ClassName>'."""
